@@ -81,7 +81,8 @@ theorem ex_analyzer (tol : Ext ℚ) :
       = { Analyzer.fromDomain exSrc.domain tol with reachedIterationLimit := true } := by
     simp [Analyzer.analyze, Analyzer.propagate, exSrc, Analyzer.propagateLoop, List.range, List.range.loop]
   rw [h1]
-  simp [Analyzer.enforceable, Analyzer.emptyIntegerRange, Analyzer.fromDomain, exSrc]
+  simp [Analyzer.enforceable, Analyzer.emptyIntegerRange, Analyzer.roundIntegerRanges, Analyzer.roundStep,
+    Analyzer.fromDomain, exSrc]
 
 theorem exSrc_compile (tol : Ext ℚ) : Compile.linearize exSrc tol 0 = .ok exMax := by
   have hd : ({ Analyzer.fromDomain exSrc.domain tol with reachedIterationLimit := true } : Analyzer (Ext ℚ)).applyToDomain
